@@ -268,7 +268,7 @@ class C14(core.Check):
                         'pos:zero-length@end': 2, 'pos:zero-length@start': 2, 'pos:zero-length@before-org-gap': 2,
                         'pos:zero-length@muted': 2, 'pos:zero-length@end-after-label': 2, 'outcome:success': 3,
                         'outcome:failure': 3, 'output-in-missing-directory': 3, 'long-run:directed': 20, 'odd-spacing:directed': 10, 'corpus-example': 2, 'window-options': 3,
-                        'planted:symbol-cycle': 3, 'no-image-asked-for': 3, 'symbol-cycle:use-before-it-closes': 3, 'symbol-cycle:first-from-cmdline': 3,
+                        'planted:symbol-cycle': 3, 'no-image-asked-for': 3, 'page-local-target:page-0': 3, 'symbol-cycle:use-before-it-closes': 3, 'symbol-cycle:first-from-cmdline': 3,
                         'symbol-cycle:first-from-config': 3}
 
     def make(self, isa_files, isa_name, main, src, fmt, planted, tags, missing_dir=False, extra_argv=()):
@@ -368,6 +368,17 @@ class C14(core.Check):
                                         'symbol-cycle:use-before-it-closes' if L_ > 1 else 'symbol-cycle:length-1',
                                         'pos:' + ['first', 'middle', 'last'][(L_ + use) % 3]}, extra_argv=extra)
                         yield c_
+        # a page-local target outside the instruction's page does not fit its field, wherever the two pages are
+        for k_, (ia_, ta_) in enumerate([(0x0200, 0x0010), (0x0300, 0x00FF), (0x0100, 0x0000), (0x0200, 0x0300), (0x0210, 0x01FF),
+                                         (0x4000, 0x0040), (0x0100, 0x4001)]):
+            for via in ('literal', 'label', 'constant'):
+                tgt_ = {'literal': f'${ta_:04x}', 'label': 'c14_pg_target', 'constant': 'C14_PG_K'}[via]
+                body = ([f'C14_PG_K = ${ta_:04x}'] if via == 'constant' else []) + [f'.org ${ia_:04x}', f'jpl {tgt_}']
+                if via == 'label':
+                    body = [f'.org ${ta_:04x}', 'c14_pg_target:', '.byte 1'] + body if ta_ < ia_ else body + [f'.org ${ta_:04x}', 'c14_pg_target:', '.byte 1']
+                yield self.make({fn: itext}, fn, 'p.asm', '\n'.join(body) + '\n', None, 'value-does-not-fit-field',
+                                {'corruption:page-local-target-in-another-page', 'fmt:None', 'planted:value-does-not-fit-field',
+                                 'page-local-target:' + ('page-0' if ta_ < 0x100 else 'other-page'), 'pos:last'})
         # corruptions of the repository's example programs (line-level, no AST needed)
         from vf import runner
         import sys
